@@ -9,7 +9,10 @@ K: the regenerated selection is run (vm_compute) on the syntax trees of thousand
    compared with Match; the capture-group walk model is compared with regexpHasCaptureGroups (hook).
 O: textmatch.Match / MatchString vs regexp.MustCompile(p).Match on pattern x input (the property's oracle), compile
    errors of both, engine-level Text.Matches / File().Name.Matches / File().PkgPath.Matches vs regexp on the node text,
-   file name and package path. The Section hypotheses about package unicode / syntax.Parse are validated for every rune.
+   file name and package path -- over a history of runs (several packages, file names, versions of the text at the same
+   offsets / the same path) through ONE reused RunnerState and with a nil state; every pattern answered by a rune predicate
+   is swept over all runes. The hypothesis about the (regenerated) table of prefix classes is checked entry by entry for
+   every rune, and discharged in Coq from the observed range tables (Hyp_Instance.v).
 """
 import base64
 import json
@@ -29,18 +32,23 @@ def run(c):
     c.rule = ("patterns: every atom, pair and begin/any x literal x end/any triple over pools of literals (plain, case-folded, "
               "[Ff], non-ASCII, U+FFFD, surrogate, with newline), any-variants, anchors (^ $ \\A \\z, (?m)), flags in front of "
               "every fast-path shape, near misses of ^\\p{Lu}, plus seeded random patterns; inputs: ~60 fixed strings (empty, "
-              "multi-line, case variants, non-ASCII, invalid UTF-8) plus strings derived from the pattern's literals; a case "
+              "multi-line, case variants, non-ASCII, invalid UTF-8) plus strings derived from the pattern's literals, plus strings beginning "
+              "with the runes on both sides of every boundary of the pattern's classes and with runes of every unicode predicate; a case "
               "(pattern, input) is non-trivial when textmatch chose a fast path or regexp matches; distinct by (pattern, input)")
     c.trusted += [
         "go2coq textmatch translator (closures and if/switch cascade of compileOptimized, matcher methods -> Gallina)",
         "regexp/syntax.Parse delivers the tree (serialised by harness/cmd/c11); regexp.MustCompile is the oracle",
-        "Section hypotheses of C11_fast_path_equiv: syntax.Parse of ^\\p{Lu} / ^\\p{Ll} is Concat[BeginText, CharClass] "
-        "whose class equals unicode.IsUpper / IsLower (validated for every rune 0..0x10FFFF+16 on every run), "
-        "IsUpper/IsLower(U+FFFD)=false; fold_rel (unicode.SimpleFold orbits) is abstract and unused by any selected path",
+        "Section hypothesis of C11_fast_path_equiv (table_sound): for every entry of the REGENERATED table of prefix classes, "
+        "syntax.Parse of the pattern string is Concat[BeginText, CharClass] whose class equals the entry's unicode predicate and "
+        "excludes U+FFFD -- discharged on every run by Hyp_Instance.v from the range tables obtained by calling unicode.IsX on every "
+        "rune 0..0x10FFFF+16 and the observed parses (trusted: that extraction); fold_rel (unicode.SimpleFold orbits) is abstract "
+        "and unused by any selected path",
         "the positional matching relation RG.Regex.Regex.m as the meaning of a syntax tree (existence of a match; greediness ignored) -- "
         "validated on every run: an executable matcher PROVED equivalent to m (Matcher.searchb_correct) is compared with regexp on "
         "every generated pattern (trees with surrogate literal runes excepted: Go's regexp is inconsistent with itself there)",
         "harness/cmd/c11 and hooks textmatch.VerifDescribe, ruleguard.VerifRegexpHasCaptureGroups (build tag verif)",
+        "the facts go2coq reads off filters.go / ir_loader.go / ruleguard.go / runner.go (call sites, loader, RunnerState inventory, "
+        "what flows from a reused state into a run) are syntactic",
     ]
     c.notes += ["the regexp fallback path is regexp.Compile itself; File().Name/PkgPath.Matches use regexp.Compile directly",
                 "Text.Matches(``) (empty pattern) and patterns regexp rejects are load errors (observed, expected)"]
@@ -103,6 +111,8 @@ def run(c):
         # ---- the hypothesis of the theorems about the table of prefix classes, entry by entry, for every rune; the observed
         # range tables / parses go into Obs_Unicode.v and Hyp_Instance.v turns the comparison into the hypothesis (in Coq)
         obs_ok = False
+        from concurrent.futures import ThreadPoolExecutor
+        pool, hyp_future = ThreadPoolExecutor(max_workers=1), None
         if not tab:
             c.obligation("hyp:table-observed", False, "harness printed no table record")
         else:
@@ -126,16 +136,22 @@ def run(c):
                     "(%s, %s)" % (coq_bytes(b64(e["pat"])), e["ast"]) for e in (tab["entries"] or []) if e.get("ast")))
                 with open(os.path.join(c.gen, "Obs_Unicode.v"), "w") as f:
                     f.write("\n".join(src) + "\n")
-                obs_ok = c.coq_compile(["Obs_Unicode.v"])
-                if obs_ok and gen_ok and inst_ok:
-                    c.coq_compile(["Hyp_Instance.v"])
+                def hyp_job():
+                    ok = c.coq_compile(["Obs_Unicode.v"])
+                    if ok and gen_ok and inst_ok:
+                        c.coq_compile(["Hyp_Instance.v"])
+                    return ok
+                hyp_future = pool.submit(hyp_job)
             else:
                 obs_ok = os.path.exists(os.path.join(c.gen, "Obs_Unicode.vo"))
         cls_mod = "Obs_Classes_%s" % tag
         with open(os.path.join(c.gen, cls_mod + ".v"), "w") as f:
             f.write("From Coq Require Import List ZArith.\nImport ListNotations. Local Open Scope Z_scope.\n" +
                     "\n".join("Definition %s : list (Z * Z) := %s." % (k, v) for k, v in sorted(classes.items())) + "\n")
-        cls_ok = c.coq_compile([cls_mod + ".v"])
+        cls_ok = c.coq_compile([cls_mod + ".v"])   # meanwhile Obs_Unicode.v / Hyp_Instance.v compile in the other thread
+        if hyp_future is not None:
+            obs_ok = hyp_future.result()
+        pool.shutdown()
 
         # ---- O: the property's oracle
         kinds = {}
